@@ -393,19 +393,34 @@ func exec(line string) hx.Result {
 		if bad != "" {
 			outcome = "FAILED-" + bad
 		}
-		res.Kind = fmt.Sprintf("k%d-t%s-%s", k, tkind, outcome)
+		res.Kind = fmt.Sprintf("%s-t%s-%s", kname, tkind, outcome)
 		if bad != "" {
 			stage := bad
 			if strings.HasPrefix(bad, "obs") || strings.HasPrefix(bad, "stores") {
 				stage = strings.SplitN(bad, ":", 2)[0] // which fields differ depends on the block content: kept in Fail only
 			}
-			res.Class = fmt.Sprintf("crash-k%d:%s", k, stage)
-			res.Fail = fmt.Sprintf("crash while committing block %d after %d of the 3 store commits with %d/%d hash-file bytes durable: %s (%s) [%s]",
-				h, k, t, app, bad, notes, res.Out)
+			res.Class = fmt.Sprintf("crash-%s:%s", kname, stage)
+			res.Fail = fmt.Sprintf("crash while committing block %d with the commits {%s} durable (%d of 3, a prefix of the source's commit order %q) and %d/%d hash-file bytes durable: %s (%s) [%s]",
+				h, kname, k, srcOrder, t, app, bad, notes, res.Out)
 		}
 		return res
 	}
 
+	if !reach {
+		// not a crash state of the tree under check: the real reopen is still executed and its outcome compared with the
+		// model's, but the recovery predicate does not apply
+		res := hx.Result{Key: line}
+		kit, err := ledgerkit.SafeOpen(dir, accts[0])
+		if err != nil {
+			res.Out = "reach=0 open=err:" + errClass(err)
+		} else {
+			res.Out = fmt.Sprintf("reach=0 open=ok h=%d", kit.Ledger.GetCurrentBlockHeight())
+			kit.SafeClose()
+		}
+		res.Kind = fmt.Sprintf("%s-not-a-prefix-of-%s(opened, predicate not applicable)", kname, srcOrder)
+		return res
+	}
+	out = append(out, "reach=1")
 	kit, err := ledgerkit.SafeOpen(dir, accts[0])
 	if err != nil {
 		out = append(out, "open=err:"+errClass(err))
@@ -542,12 +557,12 @@ func compositions(r *hx.Rand, chain string, crashable int) []string {
 			ts = append(ts, fmt.Sprint(32*j))
 		}
 		ts = append(ts, fmt.Sprint(32*r.Intn(a)+1+r.Intn(31)), "all")
-		for k := 0; k <= 3; k++ {
+		for _, set := range []string{"-", "b", "e", "s", "be", "bs", "es", "bes"} {
 			for _, t := range ts {
-				if k == 3 && t != "all" {
+				if strings.Contains(set, "s") && t != "all" {
 					continue // state store committed but hash file torn: needs a lost fsync, not a process death
 				}
-				out = append(out, fmt.Sprintf("CR:%d:%d:%s %s", h, k, t, chain))
+				out = append(out, fmt.Sprintf("CR:%d:%s:%s %s", h, set, t, chain))
 			}
 		}
 	}
@@ -556,7 +571,7 @@ func compositions(r *hx.Rand, chain string, crashable int) []string {
 
 // budget caps the number of real cases of one run (a case costs ~0.3 s: ledger opens on LevelDB directories); the
 // focused search of ./check asks for 20000 cases, everything beyond the cap is the no-op line `NOP`.
-var budget = map[string]int{"quick": 72 * 4, "thorough": 6000}
+var budget = map[string]int{"quick": 112 * 3, "thorough": 6000}
 
 func gen(r *hx.Rand, tier string, i int) string {
 	if i >= budget[tier] {
@@ -585,13 +600,14 @@ func main() {
 	hx.Main(hx.Prop{
 		ID: "C01",
 		Rule: "for one generated chain of 8 blocks of ONT/ONG transfers and ONG claims (thorough: several chains of up to 17 blocks, up to 5 txs per block): EVERY crash composition of every block 1..6 — " +
-			"k in {0,1,2,3} durable store commits x hash-file append cut at every 32-byte boundary, one mid-hash offset, and complete — composed from directory snapshots of the real LevelDB stores, " +
+			"all 8 subsets of {block, event, state} store commits durable x hash-file append cut at every 32-byte boundary, one mid-hash offset, and complete — composed from directory snapshots of the real LevelDB stores; " +
+			"the predicate applies to the subsets that are prefixes of the CommitTo order read from submitBlock's source of the tree under check, the others are only reopened; " +
 			"reopened with InitLedger, compared with the uncrashed ledger (height, hashes, roots, inclusion proof, balances, events), fed the next two blocks, stores compared key by key, reopened again. Non-trivial = distinct line",
 		Gen:     gen,
 		Exec:    exec,
 		Init:    initAccts,
 		Isolate: true,
 		Timeout: 120 * 1e9,
-		N:       map[string]int{"quick": 72, "thorough": 1200},
+		N:       map[string]int{"quick": 112, "thorough": 1500},
 	})
 }
